@@ -517,6 +517,15 @@ func normalizeTree(v any) any {
 
 // ---- generator ----
 func c17Schema(r *Rng, depth int, defs []string) map[string]any {
+	s := c17SchemaInner(r, depth, defs)
+	if _, isRef := s["$ref"]; !isRef && r.Chance(12) {
+		// nullable applies to every schema shape, typed or not (the reference-or-null idiom is an untyped allOf)
+		s["x-nullable"] = true
+	}
+	return s
+}
+
+func c17SchemaInner(r *Rng, depth int, defs []string) map[string]any {
 	if len(defs) > 0 && r.Chance(20) {
 		return map[string]any{"$ref": "#/definitions/" + Pick(r, defs)}
 	}
